@@ -1001,7 +1001,7 @@ Proof.
     + lia.
 Qed.
 
-Ltac len := unfold quoted; repeat (rewrite app_length || progress cbn [length]); lia.
+Ltac len := unfold quoted; repeat first [rewrite app_length | progress (cbn [length])]; lia.
 
 Lemma qfm_set_fresh : forall acc k v, ~ In k (map fst acc) -> qfm_set acc k v = acc ++ [(k, v)].
 Proof.
@@ -1087,4 +1087,508 @@ Proof.
     + constructor. reflexivity. apply pad_space.
     + apply view_S in Hv5. rewrite Hv5. unfold members_tail. rewrite <- ?app_assoc. simpl. rewrite <- ?app_assoc. reflexivity.
     + unfold off4, off3, off1. lia.
+Qed.
+
+Lemma parse_dump_array : forall l, Forall parse_dump_stmt l -> parse_dump_stmt (JArray l).
+Proof.
+  intros l HP d depth s off rest Hwf Hd Hv _. destruct d; [simpl in Hd; lia|].
+  apply jwf_array in Hwf. rewrite jheight_array in Hd.
+  assert (Hh : Forall (fun x => jheight x <= d) l).
+  { assert (H : list_max_h (map jheight l) <= d) by lia. apply list_max_h_le in H.
+    rewrite Forall_map in H. exact H. }
+  rewrite dump_array in *. cbn [app] in Hv. rewrite <- app_assoc in Hv. cbn [app] in Hv.
+  rewrite (parse_next_dispatch d s off _ _ Hv eq_refl). cbn [ceq Ascii.eqb Bool.eqb].
+  unfold parse_array. assert (Hv1 := view_S _ _ _ _ Hv).
+  destruct l as [|v r].
+  - simpl in Hv1. rewrite (consume_ws_here s (S off) "]"%char rest eq_refl Hv1). cbn [bind].
+    rewrite (view_at _ _ _ _ Hv1). cbn [bind]. rewrite ceq_refl. f_equal. f_equal. simpl. lia.
+  - rewrite dump_elems_cons in Hv1. cbn [app] in Hv1. rewrite <- app_assoc in Hv1.
+    inversion Hwf as [|? ? Hwv Hwr]; subst.
+    destruct (dump_head v (S depth) Hwv) as (c & q & E & (Hc1 & Hc2 & Hc3)).
+    assert (Hv1' := Hv1). rewrite E in Hv1'. cbn [app] in Hv1'.
+    rewrite (consume_ws_here s (S off) c _ Hc1 Hv1'). cbn [bind].
+    rewrite (view_at _ _ _ _ Hv1'). cbn [bind]. rewrite Hc2.
+    rewrite (array_loop_dump r v [] (S (length s)) d depth s (S off) [] rest); auto.
+    + f_equal. f_equal. rewrite dump_elems_cons. len.
+    + constructor.
+    + lia.
+Qed.
+
+Lemma parse_dump_object : forall l, Forall (fun kv => parse_dump_stmt (snd kv)) l -> parse_dump_stmt (JObject l).
+Proof.
+  intros l HP d depth s off rest Hwf Hd Hv _. destruct d; [simpl in Hd; lia|].
+  apply jwf_object in Hwf. destruct Hwf as [Hnd Hwf]. rewrite jheight_object in Hd.
+  assert (Hh : Forall (fun kv => Nat.max 1 (jheight (snd kv)) <= d) l).
+  { assert (H : list_max_h (map (fun kv => Nat.max 1 (jheight (snd kv))) l) <= d) by lia.
+    apply list_max_h_le in H. rewrite Forall_map in H. exact H. }
+  rewrite dump_object in *. cbn [app] in Hv. rewrite <- app_assoc in Hv. cbn [app] in Hv. rewrite <- app_assoc in Hv. cbn [app] in Hv.
+  rewrite (parse_next_dispatch d s off _ _ Hv eq_refl). cbn [ceq Ascii.eqb Bool.eqb].
+  unfold parse_object. assert (Hv1 := view_S _ _ _ _ Hv).
+  destruct l as [|[k0 v] r].
+  - cbn [dump_members app] in Hv1.
+    rewrite (consume_ws_view (ch_nl :: ch_nl :: skipn 2 (pad_of depth)) s (S off) "}"%char rest); auto.
+    2:{ constructor. reflexivity. constructor. reflexivity. apply all_space_skipn, pad_space. }
+    cbn [bind].
+    assert (Hv2 : view s (S off + length (ch_nl :: ch_nl :: skipn 2 (pad_of depth))) = "}"%char :: rest).
+    { eapply view_app. exact Hv1. }
+    rewrite (view_at _ _ _ _ Hv2). cbn [bind]. rewrite ceq_refl. f_equal. f_equal. cbn [dump_members app]. len.
+  - rewrite dump_members_cons in Hv1. cbn [app] in Hv1.
+    inversion Hwf as [|? ? Hwv Hwr]; subst. inversion Hh as [|? ? Hhv Hhr]; subst. cbn [snd] in *.
+    assert (Hv1' : view s (S off) = (ch_nl :: pad_of depth) ++ ch_quote :: (json_escape k0 ++ [ch_quote])
+                     ++ " "%char :: ":"%char :: " "%char :: dump (S depth) v ++ members_tail depth r rest).
+    { rewrite Hv1. unfold members_tail, quoted. rewrite <- ?app_assoc. cbn [app]. rewrite <- ?app_assoc. cbn [app]. reflexivity. }
+    rewrite (consume_ws_view (ch_nl :: pad_of depth) s (S off) ch_quote _ ltac:(constructor; [reflexivity|apply pad_space]) eq_refl Hv1').
+    cbn [bind].
+    assert (Hv2 := view_app _ _ _ _ Hv1').
+    rewrite (view_at _ _ _ _ Hv2). cbn [bind].
+    replace (ceq ch_quote "}") with false by reflexivity.
+    rewrite (object_loop_dump r k0 v [] (S (length s)) d depth s _ [] rest); auto.
+    + f_equal. f_equal. rewrite dump_members_cons. len.
+    + apply Forall_impl with (2 := Hh). intros; lia.
+    + lia.
+    + constructor.
+    + lia.
+Qed.
+
+Theorem parse_dump_all : forall j, parse_dump_stmt j.
+Proof.
+  apply json_ind'.
+  - exact parse_dump_null.
+  - exact parse_dump_object.
+  - exact parse_dump_array.
+  - exact parse_dump_string.
+  - intros f d depth s off rest Hwf. simpl in Hwf. contradiction.
+  - exact parse_dump_int.
+  - exact parse_dump_bool.
+Qed.
+
+Lemma load_dump : forall j depth, jwf j -> jheight j <= max_depth -> load (dump depth j) = Ok j.
+Proof.
+  intros j depth Hwf Hh. unfold load.
+  destruct j; try (rewrite (parse_dump_all _ max_depth depth _ 0 [] Hwf Hh); [reflexivity|rewrite view_0, app_nil_r; reflexivity|exact I]).
+  (* a top-level integer: the cursor ends on its last digit *)
+  cbn [dump jwf] in *. destruct (print_int_head z) as (c & r & E & Hc).
+  assert (Hv : view (print_int z) 0 = print_int z ++ []) by (rewrite view_0, app_nil_r; reflexivity).
+  assert (Hv' := Hv). rewrite E in Hv' at 2. simpl in Hv'.
+  assert (Hsp : isspace c = false /\ (is_digit c || ceq c "-") = true
+                /\ ceq c "[" = false /\ ceq c "{" = false /\ ceq c ch_quote = false
+                /\ ceq c "t" = false /\ ceq c "f" = false /\ ceq c "n" = false).
+  { destruct Hc as [->|Hc]. repeat split.
+    destruct (is_digit_props c Hc) as (? & ? & ? & ? & ? & ? & ? & ? & ? & ?). rewrite Hc. repeat split; auto. }
+  destruct Hsp as (H1 & H2 & H3 & H4 & H5 & H6 & H7 & H8).
+  unfold max_depth. rewrite (parse_next_dispatch _ _ 0 _ _ Hv' H1). rewrite H2, H3, H4, H5, H6, H7, H8. cbn [orb].
+  rewrite (parse_number_print z _ 0 [] Hwf Hv I). reflexivity.
+Qed.
+
+(* ================================================================== std::map key order *)
+Lemma bytes_ltb_irrefl : forall a, bytes_ltb a a = false.
+Proof. induction a; simpl; auto. rewrite N.ltb_irrefl. auto. Qed.
+
+Lemma bytes_ltb_trans : forall a b c, bytes_ltb a b = true -> bytes_ltb b c = true -> bytes_ltb a c = true.
+Proof.
+  induction a as [|x a IH]; intros [|y b] [|z c] H1 H2; simpl in *; try discriminate; auto.
+  destruct (N.ltb (N_of_ascii x) (N_of_ascii y)) eqn:Exy;
+  destruct (N.ltb (N_of_ascii y) (N_of_ascii x)) eqn:Eyx;
+  destruct (N.ltb (N_of_ascii y) (N_of_ascii z)) eqn:Eyz;
+  destruct (N.ltb (N_of_ascii z) (N_of_ascii y)) eqn:Ezy; try discriminate;
+  destruct (N.ltb (N_of_ascii x) (N_of_ascii z)) eqn:Exz; auto;
+  destruct (N.ltb (N_of_ascii z) (N_of_ascii x)) eqn:Ezx;
+  rewrite ?N.ltb_lt, ?N.ltb_ge in *; try lia; eauto.
+Qed.
+
+Lemma bytes_ltb_asym : forall a b, bytes_ltb a b = true -> bytes_ltb b a = false.
+Proof.
+  intros a b H. destruct (bytes_ltb b a) eqn:E; auto.
+  pose proof (bytes_ltb_trans _ _ _ H E) as C. rewrite bytes_ltb_irrefl in C. discriminate.
+Qed.
+
+Lemma keys_sorted_cons : forall A (k : bytes) (v : A) r,
+  keys_sorted ((k, v) :: r) = true ->
+  keys_sorted r = true /\ Forall (fun kv => bytes_ltb k (fst kv) = true) r.
+Proof.
+  intros A k v r. revert k v. induction r as [|[k1 v1] r IH]; intros k v H.
+  - split; auto.
+  - cbn [keys_sorted] in H. apply andb_prop in H. destruct H as [H1 H2].
+    split; auto. constructor; auto.
+    destruct (IH k1 v1 H2) as [_ H3].
+    apply Forall_impl with (2 := H3). intros a Ha. eapply bytes_ltb_trans; eauto.
+Qed.
+
+Lemma keys_sorted_nodup : forall A (l : list (bytes * A)), keys_sorted l = true -> NoDup (map fst l).
+Proof.
+  induction l as [|[k v] r IH]; intros H; simpl. constructor.
+  destruct (keys_sorted_cons _ _ _ _ H) as [H1 H2]. constructor; auto.
+  intros Hin. apply in_map_iff in Hin. destruct Hin as ([k' v'] & E & Hin). simpl in E. subst k'.
+  rewrite Forall_forall in H2. specialize (H2 _ Hin). simpl in H2. rewrite bytes_ltb_irrefl in H2. discriminate.
+Qed.
+
+Lemma map_insert_last : forall m k v,
+  Forall (fun kv => bytes_ltb (fst kv) k = true) m -> map_insert m k v = m ++ [(k, v)].
+Proof.
+  induction m as [|[k' v'] r IH]; intros k v H; simpl; auto.
+  inversion H; subst. simpl in H2. rewrite (bytes_ltb_asym _ _ H2), H2. rewrite IH; auto.
+Qed.
+
+(* ================================================================== json_wrap *)
+Definition tj_step (m : list (bytes * json)) (kv : bytes * sval) := qfm_set m (fst kv) (to_json_object (snd kv)).
+Definition fj_step (m : list (bytes * sval)) (kv : bytes * json) := map_insert m (fst kv) (from_json_obj (snd kv)).
+
+Lemma to_json_object_map : forall l, to_json_object (VMap l) = JObject (fold_left tj_step l []).
+Proof.
+  intros. cbn [to_json_object]. f_equal. generalize (@nil (bytes * json)).
+  induction l as [|[k x] r IH]; intros m; simpl; auto.
+Qed.
+
+Lemma from_json_obj_object : forall l, from_json_obj (JObject l) = VMap (fold_left fj_step l []).
+Proof.
+  intros. cbn [from_json_obj]. f_equal. generalize (@nil (bytes * sval)).
+  induction l as [|[k x] r IH]; intros m; simpl; auto.
+Qed.
+
+Lemma fold_tj_fresh : forall l m, NoDup (map fst m ++ map fst l) ->
+  fold_left tj_step l m = m ++ map (fun kv => (fst kv, to_json_object (snd kv))) l.
+Proof.
+  induction l as [|[k x] r IH]; intros m H; simpl. - rewrite app_nil_r; auto.
+  - unfold tj_step at 2. simpl. rewrite qfm_set_fresh.
+    + rewrite IH. * rewrite <- app_assoc. reflexivity.
+      * rewrite map_app. simpl. rewrite <- app_assoc. exact H.
+    + simpl in H. apply NoDup_remove_2 in H. intros Hin. apply H. apply in_or_app; auto.
+Qed.
+
+Lemma fold_fj_sorted : forall l m,
+  keys_sorted l = true -> Forall (fun kv => Forall (fun kv' => bytes_ltb (fst kv) (fst kv') = true) l) m ->
+  fold_left fj_step l m = m ++ map (fun kv => (fst kv, from_json_obj (snd kv))) l.
+Proof.
+  induction l as [|[k x] r IH]; intros m Hs Hm; simpl. - rewrite app_nil_r; auto.
+  - destruct (keys_sorted_cons _ _ _ _ Hs) as [Hs' Hk].
+    unfold fj_step at 2. simpl. rewrite map_insert_last.
+    + rewrite IH; auto. * rewrite <- app_assoc. reflexivity.
+      * apply Forall_app. split.
+        -- apply Forall_impl with (2 := Hm). intros a Ha. inversion Ha; auto.
+        -- constructor; auto.
+    + apply Forall_impl with (2 := Hm). intros a Ha. inversion Ha; auto.
+Qed.
+
+Lemma wf_sval_map : forall l, wf_sval (VMap l) = keys_sorted l && forallb (fun kv => wf_sval (snd kv)) l.
+Proof.
+  intros. cbn [wf_sval]. f_equal. induction l as [|[k x] r IH]; simpl; auto; try (rewrite IH; reflexivity).
+Qed.
+Lemma wf_sval_vec : forall l, wf_sval (VVec l) = forallb wf_sval l.
+Proof. intros. cbn [wf_sval]. induction l; simpl; auto; try (rewrite IHl; reflexivity). Qed.
+Lemma vheight_map : forall l, vheight (VMap l) = S (list_max_h (map (fun kv => Nat.max 1 (vheight (snd kv))) l)).
+Proof. intros. cbn [vheight]. f_equal. induction l as [|[k x] r IH]; simpl; auto. Qed.
+Lemma vheight_vec : forall l, vheight (VVec l) = S (list_max_h (map vheight l)).
+Proof. intros. cbn [vheight]. f_equal. induction l; simpl; auto. Qed.
+
+Definition wrap_stmt (v : sval) : Prop :=
+  wf_sval v = true ->
+  jwf (to_json_object v) /\ jheight (to_json_object v) = vheight v /\ from_json_obj (to_json_object v) = v.
+
+Lemma wrap_all : forall v, wrap_stmt v.
+Proof.
+  apply sval_ind'; unfold wrap_stmt.
+  - intros _. repeat split.
+  - (* map *)
+    intros l IH Hwf. rewrite wf_sval_map in Hwf. apply andb_prop in Hwf. destruct Hwf as [Hs Hall].
+    rewrite forallb_forall in Hall. rewrite Forall_forall in IH.
+    rewrite to_json_object_map. rewrite fold_tj_fresh by (simpl; apply keys_sorted_nodup; auto). simpl app.
+    split; [|split].
+    + apply jwf_object. split.
+      * rewrite map_map. simpl. apply keys_sorted_nodup; auto.
+      * apply Forall_forall. intros kv Hin. apply in_map_iff in Hin. destruct Hin as (kv' & <- & Hin). simpl.
+        apply (proj1 (IH _ Hin (Hall _ Hin))).
+    + rewrite jheight_object, vheight_map. f_equal. rewrite map_map. simpl. f_equal.
+      apply map_ext_in. intros kv Hin. destruct (IH _ Hin (Hall _ Hin)) as (_ & E & _). rewrite E. reflexivity.
+    + rewrite from_json_obj_object. rewrite fold_fj_sorted.
+      * simpl. f_equal. rewrite map_map. simpl. rewrite <- (map_id l) at 2.
+        apply map_ext_in. intros [k x] Hin. destruct (IH _ Hin (Hall _ Hin)) as (_ & _ & E). simpl in *. rewrite E. reflexivity.
+      * clear IH Hall. induction l as [|[k x] r IHr]; simpl; auto.
+        destruct (keys_sorted_cons _ _ _ _ Hs) as [Hs' Hk]. specialize (IHr Hs').
+        destruct r as [|[k1 x1] r]; simpl in *; auto. apply andb_prop in Hs. destruct Hs as [H1 _].
+        rewrite H1. exact IHr.
+      * constructor.
+  - (* vector *)
+    intros l IH Hwf. rewrite wf_sval_vec in Hwf. rewrite forallb_forall in Hwf. rewrite Forall_forall in IH.
+    cbn [to_json_object]. split; [|split].
+    + apply jwf_array. apply Forall_forall. intros j Hin. apply in_map_iff in Hin. destruct Hin as (x & <- & Hin).
+      apply (proj1 (IH _ Hin (Hwf _ Hin))).
+    + rewrite jheight_array, vheight_vec. f_equal. rewrite map_map. f_equal.
+      apply map_ext_in. intros x Hin. apply (proj1 (proj2 (IH _ Hin (Hwf _ Hin)))).
+    + cbn [from_json_obj]. f_equal. rewrite map_map. rewrite <- (map_id l) at 2.
+      apply map_ext_in. intros x Hin. apply (proj2 (proj2 (IH _ Hin (Hwf _ Hin)))).
+  - intros s _. repeat split.
+  - intros f H. discriminate.
+  - intros z H. cbn [wf_sval] in H. cbn [to_json_object]. rewrite wrap64_id by (apply in_int64_range; auto).
+    repeat split. exact H.
+  - intros b _. repeat split.
+Qed.
+
+(* from_json(to_json(v)) = v *)
+Theorem roundtrip_thm : forall v : sval,
+  wf_sval v = true -> vheight v <= max_depth -> from_json (to_json v) = FValue v.
+Proof.
+  intros v Hwf Hh. destruct (wrap_all v Hwf) as (H1 & H2 & H3).
+  unfold from_json, to_json. rewrite load_dump; auto. - rewrite H3. reflexivity. - lia.
+Qed.
+
+(* ================================================================== what the parser can produce *)
+Lemma bind_ok : forall A C (r : res A) (f : A -> res C) x,
+  bind r f = Ok x -> exists a, r = Ok a /\ f a = Ok x.
+Proof. intros A C [a|e] f x H; simpl in H; [eauto|discriminate]. Qed.
+
+Fixpoint ints_ok (j : json) : Prop :=
+  match j with
+  | JObject l => (fix go (l : list (bytes * json)) : Prop :=
+                    match l with [] => True | (_, v) :: r => ints_ok v /\ go r end) l
+  | JArray l => (fix go (l : list json) : Prop := match l with [] => True | v :: r => ints_ok v /\ go r end) l
+  | JInt z => in_int64 z = true
+  | _ => True
+  end.
+
+Lemma ints_ok_object : forall l, ints_ok (JObject l) <-> Forall (fun kv => ints_ok (snd kv)) l.
+Proof.
+  intros l. cbn [ints_ok]. split; intros H.
+  - induction l as [|[k v] r IH]; constructor; simpl in *; tauto.
+  - induction l as [|[k v] r IH]; simpl; auto. inversion H; subst. split; [assumption|apply IH; assumption].
+Qed.
+
+Lemma ints_ok_array : forall l, ints_ok (JArray l) <-> Forall ints_ok l.
+Proof.
+  intros l. cbn [ints_ok]. split; intros H.
+  - induction l; constructor; simpl in *; tauto.
+  - induction l; simpl; auto. inversion H; subst. split; [assumption|apply IHl; assumption].
+Qed.
+
+Lemma jheight_pos : forall j, 1 <= jheight j.
+Proof. destruct j; simpl; lia. Qed.
+
+Definition pinv (d : nat) (j : json) : Prop := jheight j <= d /\ ints_ok j.
+
+Lemma pinv_array : forall d l, Forall (pinv d) l -> pinv (S d) (JArray l).
+Proof.
+  intros d l H. split.
+  - rewrite jheight_array. apply le_n_S. apply list_max_h_le. rewrite Forall_map.
+    apply Forall_impl with (2 := H). intros a [Ha _]; auto.
+  - apply ints_ok_array. apply Forall_impl with (2 := H). intros a [_ Ha]; auto.
+Qed.
+
+Lemma pinv_object : forall d l, Forall (fun kv => pinv d (snd kv)) l -> pinv (S d) (JObject l).
+Proof.
+  intros d l H. split.
+  - rewrite jheight_object. apply le_n_S. apply list_max_h_le. rewrite Forall_map.
+    apply Forall_impl with (2 := H). intros a [Ha _]. pose proof (jheight_pos (snd a)). lia.
+  - apply ints_ok_object. apply Forall_impl with (2 := H). intros a [_ Ha]; auto.
+Qed.
+
+Lemma qfm_set_forall : forall (P : json -> Prop) m k v,
+  Forall (fun kv => P (snd kv)) m -> P v -> Forall (fun kv => P (snd kv)) (qfm_set m k v).
+Proof.
+  induction m as [|[k' v'] r IH]; intros k v Hm Hv; simpl.
+  - constructor; auto.
+  - inversion Hm; subst. destruct (list_eq_dec ascii_dec k' k); constructor; auto.
+Qed.
+
+Lemma in_int64_wrap : forall z, in_int64 (wrap64 z) = true.
+Proof.
+  intros. unfold in_int64. pose proof (wrap64_range z).
+  apply andb_true_intro. split. apply Z.leb_le. lia. apply Z.ltb_lt. lia.
+Qed.
+
+Lemma parse_string_loop_kind : forall k s off val j off',
+  parse_string_loop k s off val = Ok (j, off') -> exists x, j = JString x.
+Proof.
+  induction k; intros s off val j off' H; simpl in H; [discriminate|].
+  apply bind_ok in H. destruct H as (c & _ & H).
+  destruct (ceq c ch_quote). { inversion H; eauto. }
+  destruct (ceq c ch_bslash); [|eauto].
+  apply bind_ok in H. destruct H as (e & _ & H).
+  repeat match type of H with (if ?b then _ else _) = _ => destruct b end; eauto.
+  apply bind_ok in H. destruct H as (h & _ & H). eauto.
+Qed.
+
+Lemma parse_number_kind : forall s sz off j off',
+  parse_number s sz off = Ok (j, off') -> (exists f, j = JFloat f) \/ (exists z, j = JInt (wrap64 z)).
+Proof.
+  intros s sz off j off' H. unfold parse_number in H.
+  apply bind_ok in H. destruct H as ([neg o0] & _ & H).
+  apply bind_ok in H. destruct H as ([[[o1 c] val] isd] & _ & H).
+  apply bind_ok in H. destruct H as ([[o2 es] ex] & _ & H).
+  apply bind_ok in H. destruct H as (o3 & _ & H).
+  destruct isd. { inversion H; eauto. }
+  destruct es; inversion H; eauto.
+Qed.
+
+Section LoopsInv.
+  Variable s : bytes.
+  Variable sz : nat.
+  Variable d : nat.
+  Variable rec : nat -> res (json * nat).
+  Hypothesis rec_inv : forall off j off', rec off = Ok (j, off') -> pinv d j.
+
+  Lemma array_loop_inv : forall k off acc j off',
+    Forall (pinv d) acc -> array_loop rec k s sz off acc = Ok (j, off') -> pinv (S d) j.
+  Proof.
+    induction k; intros off acc j off' Hacc H; simpl in H; [discriminate|].
+    destruct (off <? sz).
+    - apply bind_ok in H. destruct H as ([v o1] & Hr & H).
+      apply bind_ok in H. destruct H as (o2 & _ & H).
+      apply bind_ok in H. destruct H as (c & _ & H).
+      assert (Hacc' : Forall (pinv d) (acc ++ [v])).
+      { apply Forall_app. split; auto. constructor; auto. eapply rec_inv; eauto. }
+      destruct (ceq c ","). { eapply IHk; eauto. }
+      destruct (ceq c "]"); [|discriminate]. inversion H; subst. apply pinv_array; auto.
+    - inversion H; subst. apply pinv_array; auto.
+  Qed.
+
+  Lemma object_loop_inv : forall k off acc j off',
+    Forall (fun kv => pinv d (snd kv)) acc -> object_loop rec k s sz off acc = Ok (j, off') -> pinv (S d) j.
+  Proof.
+    induction k; intros off acc j off' Hacc H; simpl in H; [discriminate|].
+    destruct (off <? sz).
+    - apply bind_ok in H. destruct H as ([key o1] & _ & H).
+      apply bind_ok in H. destruct H as (o2 & _ & H).
+      apply bind_ok in H. destruct H as (c & _ & H).
+      destruct (negb (ceq c ":")); [discriminate|].
+      apply bind_ok in H. destruct H as (o3 & _ & H).
+      apply bind_ok in H. destruct H as ([v o4] & Hr & H).
+      apply bind_ok in H. destruct H as (o5 & _ & H).
+      apply bind_ok in H. destruct H as (c' & _ & H).
+      assert (Hacc' : Forall (fun kv => pinv d (snd kv)) (qfm_set acc (to_string key) v)).
+      { apply qfm_set_forall with (P := pinv d); auto. eapply rec_inv; eauto. }
+      destruct (ceq c' ","). { eapply IHk; eauto. }
+      destruct (ceq c' "}"); [|discriminate]. inversion H; subst. apply pinv_object; auto.
+    - inversion H; subst. apply pinv_object; auto.
+  Qed.
+End LoopsInv.
+
+Lemma pinv_leaf : forall d j, jheight j = 1 -> ints_ok j -> pinv (S d) j.
+Proof. intros d j H1 H2. split; auto. lia. Qed.
+
+Lemma parse_next_inv : forall d s sz off j off', parse_next d s sz off = Ok (j, off') -> pinv d j.
+Proof.
+  induction d; intros s sz off j off' H; simpl in H; [discriminate|].
+  apply bind_ok in H. destruct H as (o1 & _ & H).
+  apply bind_ok in H. destruct H as (c & _ & H).
+  destruct (ceq c "[").
+  { unfold parse_array in H.
+    apply bind_ok in H. destruct H as (o2 & _ & H).
+    apply bind_ok in H. destruct H as (c2 & _ & H).
+    destruct (ceq c2 "]"). { inversion H; subst. apply pinv_array. constructor. }
+    eapply array_loop_inv; eauto. }
+  destruct (ceq c "{").
+  { unfold parse_object in H.
+    apply bind_ok in H. destruct H as (o2 & _ & H).
+    apply bind_ok in H. destruct H as (c2 & _ & H).
+    destruct (ceq c2 "}"). { inversion H; subst. apply pinv_object. constructor. }
+    eapply object_loop_inv; eauto. }
+  destruct (ceq c ch_quote).
+  { apply parse_string_loop_kind in H. destruct H as (x & ->). apply pinv_leaf; simpl; auto. }
+  destruct (ceq c "t" || ceq c "f").
+  { unfold parse_bool in H. apply bind_ok in H. destruct H as (t & _ & H).
+    destruct (bytes_eqb t (B "true")). { inversion H; subst. apply pinv_leaf; simpl; auto. }
+    apply bind_ok in H. destruct H as (f & _ & H).
+    destruct (bytes_eqb f (B "false")); [|discriminate]. inversion H; subst. apply pinv_leaf; simpl; auto. }
+  destruct (ceq c "n").
+  { unfold parse_null in H. apply bind_ok in H. destruct H as (t & _ & H).
+    destruct (negb (bytes_eqb t (B "null"))); [discriminate|]. inversion H; subst. apply pinv_leaf; simpl; auto. }
+  destruct (is_digit c || ceq c "-"); [|discriminate].
+  apply parse_number_kind in H. destruct H as [(f & ->)|(z & ->)]; apply pinv_leaf; simpl; auto.
+  apply in_int64_wrap.
+Qed.
+
+(* ================================================================== from_json_obj yields values in the law's scope *)
+Lemma map_insert_forall : forall (P : sval -> Prop) m k v,
+  Forall (fun kv => P (snd kv)) m -> P v -> Forall (fun kv => P (snd kv)) (map_insert m k v).
+Proof.
+  induction m as [|[k' v'] r IH]; intros k v Hm Hv; simpl.
+  - constructor; auto.
+  - inversion Hm; subst. destruct (bytes_ltb k k'). { constructor; auto. }
+    destruct (bytes_ltb k' k); [constructor; auto|auto].
+Qed.
+
+Lemma map_insert_sorted : forall m k v, keys_sorted m = true -> keys_sorted (map_insert m k v) = true.
+Proof.
+  induction m as [|[k' v'] r IH]; intros k v H; simpl; auto.
+  destruct (bytes_ltb k k') eqn:E1.
+  { change (bytes_ltb k k' && keys_sorted ((k', v') :: r) = true). rewrite E1, H. reflexivity. }
+  destruct (bytes_ltb k' k) eqn:E2; auto.
+  destruct (keys_sorted_cons _ _ _ _ H) as [Hr Hk].
+  specialize (IH k v Hr).
+  destruct r as [|[k1 v1] r1].
+  - simpl. rewrite E2. reflexivity.
+  - simpl in IH |- *. inversion Hk; subst. simpl in H2.
+    destruct (bytes_ltb k k1).
+    + change (bytes_ltb k' k && keys_sorted ((k, v) :: (k1, v1) :: r1) = true). rewrite E2. exact IH.
+    + destruct (bytes_ltb k1 k).
+      * change (bytes_ltb k' k1 && keys_sorted ((k1, v1) :: map_insert r1 k v) = true). rewrite H2. exact IH.
+      * exact H.
+Qed.
+
+Lemma float_free_object : forall l, float_free (JObject l) = forallb (fun kv => float_free (snd kv)) l.
+Proof. intros. cbn [float_free]. induction l as [|[k v] r IH]; simpl; auto; try (rewrite IH; reflexivity). Qed.
+Lemma float_free_array : forall l, float_free (JArray l) = forallb float_free l.
+Proof. intros. cbn [float_free]. induction l; simpl; auto; try (rewrite IHl; reflexivity). Qed.
+
+Definition unwrap_stmt (j : json) : Prop :=
+  float_free j = true -> ints_ok j ->
+  wf_sval (from_json_obj j) = true /\ vheight (from_json_obj j) <= jheight j.
+
+Lemma fold_fj_inv : forall (P : sval -> Prop) l m,
+  Forall (fun kv => P (from_json_obj (snd kv))) l ->
+  keys_sorted m = true -> Forall (fun kv => P (snd kv)) m ->
+  keys_sorted (fold_left fj_step l m) = true /\ Forall (fun kv => P (snd kv)) (fold_left fj_step l m).
+Proof.
+  induction l as [|[k x] r IH]; intros m Hl Hs Hm; simpl; auto.
+  inversion Hl; subst. apply IH; auto.
+  - apply map_insert_sorted; auto.
+  - apply map_insert_forall; auto.
+Qed.
+
+Lemma unwrap_all : forall j, unwrap_stmt j.
+Proof.
+  apply json_ind'; unfold unwrap_stmt.
+  - intros _ _. split; simpl; auto.
+  - (* object *)
+    intros l IH Hff Hio. rewrite float_free_object in Hff. rewrite forallb_forall in Hff.
+    apply ints_ok_object in Hio. rewrite Forall_forall in IH, Hio.
+    rewrite from_json_obj_object.
+    set (n := list_max_h (map (fun kv => Nat.max 1 (jheight (snd kv))) l)).
+    destruct (fold_fj_inv (fun v => wf_sval v = true /\ Nat.max 1 (vheight v) <= n) l []) as [Hs Hall].
+    { apply Forall_forall. intros kv Hin. destruct (IH kv Hin (Hff kv Hin) (Hio kv Hin)) as [H1 H2]. split; auto.
+      assert (Hn : list_max_h (map (fun kv => Nat.max 1 (jheight (snd kv))) l) <= n) by (unfold n; lia).
+      apply list_max_h_le in Hn. rewrite Forall_map in Hn. rewrite Forall_forall in Hn. specialize (Hn kv Hin). cbv beta in Hn. lia. }
+    { reflexivity. } { constructor. }
+    split.
+    + rewrite wf_sval_map. rewrite Hs. simpl. apply forallb_forall. intros kv Hin.
+      rewrite Forall_forall in Hall. apply (Hall kv Hin).
+    + rewrite vheight_map, jheight_object. apply le_n_S. fold n. apply list_max_h_le. rewrite Forall_map.
+      apply Forall_impl with (2 := Hall). intros a [_ Ha]. exact Ha.
+  - (* array *)
+    intros l IH Hff Hio. rewrite float_free_array in Hff. rewrite forallb_forall in Hff.
+    apply ints_ok_array in Hio. rewrite Forall_forall in IH, Hio.
+    cbn [from_json_obj]. split.
+    + rewrite wf_sval_vec. apply forallb_forall. intros x Hin. apply in_map_iff in Hin. destruct Hin as (j & <- & Hin).
+      apply (IH j Hin (Hff j Hin) (Hio j Hin)).
+    + rewrite vheight_vec, jheight_array. apply le_n_S. apply list_max_h_le. rewrite map_map, Forall_map.
+      apply Forall_forall. intros j Hin.
+      assert (Hn : list_max_h (map jheight l) <= list_max_h (map jheight l)) by lia.
+      apply list_max_h_le in Hn. rewrite Forall_map, Forall_forall in Hn. specialize (Hn j Hin).
+      destruct (IH j Hin (Hff j Hin) (Hio j Hin)) as [_ H2]. lia.
+  - intros s _ _. split; simpl; auto.
+  - intros f H. discriminate.
+  - intros z _ H. simpl in *. split; auto.
+  - intros b _ _. split; simpl; auto.
+Qed.
+
+(* from_json(to_json(from_json(t))) = from_json(t) for every accepted text without doubles *)
+Theorem idempotent_thm : forall (t : bytes) (j : json),
+  load t = Ok j -> float_free j = true ->
+  from_json t = FValue (from_json_obj j) /\
+  from_json (to_json (from_json_obj j)) = FValue (from_json_obj j).
+Proof.
+  intros t j Hl Hff. split. { unfold from_json. rewrite Hl. reflexivity. }
+  unfold load in Hl. apply bind_ok in Hl. destruct Hl as ([j' o] & Hp & Hj). inversion Hj; subst j'.
+  destruct (parse_next_inv _ _ _ _ _ _ Hp) as [Hh Hio].
+  destruct (unwrap_all j Hff Hio) as [Hwf Hvh].
+  apply roundtrip_thm; auto. lia.
 Qed.
